@@ -82,7 +82,8 @@ def create_drawdowns(returns):
     idx = returns.index
     hwm = np.zeros(len(idx))
 
-    # Create the high water mark
+    # Create the high water mark, which includes the first observation
+    hwm[0] = returns.iloc[0]
     for t in range(1, len(idx)):
         hwm[t] = max(hwm[t - 1], returns.iloc[t])
 
